@@ -53,6 +53,13 @@ def ref_uri(scheme: str, host: str, port: int | None, args: dict[str, Any]) -> t
     return (scheme, norm_host(host), port, {str(k): str(v) for k, v in args.items()})
 
 
+def nearest_ms(seconds: float) -> int:
+    """the whole number of milliseconds nearest to the exact value of the float passed (no float arithmetic)"""
+    from fractions import Fraction
+
+    return round(Fraction(seconds) * 1000)
+
+
 # -- integer notations ----------------------------------------------------------
 
 SPELLINGS = ("dec", "hex", "oct", "bin")
